@@ -1,14 +1,16 @@
 (* C01 -- property theorems. This file holds ONLY statements, `exact <lemma>`, non-vacuity examples and
    Print Assumptions, so that the statements cannot be weakened quietly.
 
-   find_model  = the search algorithm of FileSet.find after fix C01_1 (directory pruning with look-back,
-                 per-level truncation, year-only fallback, closed-interval overlap after end - 1us, exclusion
+   find_model  = the search algorithm of FileSet.find after fixes C01_1 and F-C01-6 (directory pruning with a
+                 look-back of one period clamped at datetime.min, per-level truncation, year-only fallback, closed-interval overlap after end - 1us, exclusion
                  through the interval tree of C03, white list, black list, stable sort by (t0, t1));
    find_spec   = sort (filter (t0 < end && start <= t1 && not excluded && passes the filters));
    hypotheses  : no_gaps lay      -- directory placeholders without gap once year, month, day are parsed
                  well_placed      -- the directory names of a file come from its start time
                  short lay        -- coverage no longer than one period of the finest directory level
-                 valid_file, wf_query, lookback_ok (start = datetime.min or start - P representable). *)
+                 valid_file, wf_query (start and end representable, start < end, excluded periods well formed).
+   There is NO hypothesis on how close the start is to datetime.min: since /repo bd49e45 the look-back is clamped
+   (dir_start = max(datetime.min, start - P)); the code before it is find_noclamp (lookback_overflow_asis_refuted). *)
 From Coq Require Import ZArith List Bool Permutation Sorted.
 From Typhon Require Import Base.Calendar Model.C03_tree Model.C01_find Proofs.C01_find.
 Import ListNotations.
@@ -18,7 +20,7 @@ Open Scope Z_scope.
    loses nothing, whatever the layout (temporal or not, any depth), population and period. *)
 Theorem find_sound_complete : forall lay fs q,
   no_gaps lay = true -> Forall well_placed fs -> Forall (short lay) fs -> Forall valid_file fs ->
-  wf_query q -> lookback_ok lay q ->
+  wf_query q ->
   exists l, find_model lay fs q = Ok l /\ Sorted (fun a b => key_le a b = true) l
             /\ Permutation l (filter (selected q) fs) /\ l = find_spec fs q.
 Proof. exact find_sound_complete_lemma. Qed.
@@ -44,17 +46,17 @@ Proof. exact find_spec_in. Qed.
 Theorem layout_independent : forall lay1 lay2 fs q,
   no_gaps lay1 = true -> no_gaps lay2 = true -> Forall well_placed fs ->
   Forall (short lay1) fs -> Forall (short lay2) fs -> Forall valid_file fs ->
-  wf_query q -> lookback_ok lay1 q -> lookback_ok lay2 q ->
+  wf_query q ->
   find_model lay1 fs q = find_model lay2 fs q.
 Proof.
-  intros lay1 lay2 fs q G1 G2 W S1 S2 V Q L1 L2.
-  rewrite (find_model_spec lay1 fs q G1 W S1 V Q L1), (find_model_spec lay2 fs q G2 W S2 V Q L2). reflexivity.
+  intros lay1 lay2 fs q G1 G2 W S1 S2 V Q.
+  rewrite (find_model_spec lay1 fs q G1 W S1 V Q), (find_model_spec lay2 fs q G2 W S2 V Q). reflexivity.
 Qed.
 
 (* `t in fileset` *)
 Theorem contains_agrees : forall lay fs ex t,
   no_gaps lay = true -> Forall well_placed fs -> Forall (short lay) fs -> Forall valid_file fs ->
-  valid t -> Forall (fun '(a, b) => a <= b) ex -> lookback_ok lay (instant t ex) ->
+  valid t -> Forall (fun '(a, b) => a <= b) ex ->
   contains_model lay fs ex t = existsb (selected (instant t ex)) fs.
 Proof. exact contains_agrees_lemma. Qed.
 
@@ -97,7 +99,7 @@ Proof. intros l a b. exact (sort_key_stable a b l). Qed.
    qualifying files of that coverage, in the order of fs *)
 Theorem find_sorted_stable : forall lay fs q,
   no_gaps lay = true -> Forall well_placed fs -> Forall (short lay) fs -> Forall valid_file fs ->
-  wf_query q -> lookback_ok lay q ->
+  wf_query q ->
   exists l, find_model lay fs q = Ok l /\
     forall a b, filter (has_key a b) l = filter (fun f => selected q f && has_key a b f) fs.
 Proof. exact find_sorted_stable_lemma. Qed.
@@ -157,14 +159,40 @@ Proof. exact single_find_err. Qed.
    meets every hypothesis: a non-temporal level below {year}/{month}/{day} *)
 Theorem find_asis_refuted : exists lay fs q,
   no_gaps lay = true /\ Forall well_placed fs /\ Forall (short lay) fs /\ Forall valid_file fs /\
-  wf_query q /\ lookback_ok lay q /\ find_asis lay fs q <> Ok (find_spec fs q).
+  wf_query q /\ find_asis lay fs q <> Ok (find_spec fs q).
 Proof. exact find_asis_refuted_lemma. Qed.
+
+(* ---- the look-back near datetime.min (C01 extension 2, /repo bd49e45).  find looks one period P of the finest
+   directory level back from the start, because a file may outlast its directory; `start - P` is not representable
+   for a start within P of datetime.min and the code clamps it: for every representable start the search of the
+   directories begins at max(datetime.min, start - P).  find_sound_complete above needs no hypothesis on the start
+   any more; the three theorems below say what the clamp is and what the code did without it. *)
+Theorem lookback_clamped : forall lay s, lay <> [] -> 0 <= s ->
+  dir_start lay s = Z.max 0 (s - lookback lay).
+Proof. exact dir_start_clamp. Qed.
+
+(* the code BEFORE bd49e45 (find_noclamp: the same algorithm, `start - P` not guarded) raised OverflowError exactly
+   for the well-formed periods that start strictly between datetime.min and datetime.min + P on a fileset with
+   sub directories, whatever the files; everywhere else it was the present algorithm *)
+Theorem lookback_overflow_asis_exact : forall lay fs q, wf_query q ->
+  (find_noclamp lay fs q = Err OverflowErr <-> lay <> [] /\ 0 < qstart q < lookback lay) /\
+  (find_noclamp lay fs q <> Err OverflowErr -> find_noclamp lay fs q = find_model lay fs q).
+Proof. exact find_noclamp_exact_lemma. Qed.
+
+(* ... and that violated the property on an input that meets every hypothesis: it raises where the specification
+   (and the present algorithm) has a file -- {year}/{month}/{day}, a file on 0001-01-01 12:00-13:00, the period
+   0001-01-01 00:00:01 -- 0001-01-02 00:00 *)
+Theorem lookback_overflow_asis_refuted : exists lay fs q,
+  no_gaps lay = true /\ Forall well_placed fs /\ Forall (short lay) fs /\ Forall valid_file fs /\
+  wf_query q /\ find_noclamp lay fs q = Err OverflowErr /\ find_spec fs q <> [] /\
+  find_model lay fs q = Ok (find_spec fs q).
+Proof. exact lookback_overflow_asis_refuted_lemma. Qed.
 
 (* non-vacuity: a four-level layout {year}/{month}/{day}/{sensor}, a file crossing midnight, a zero-length
    file excluded by name, a file starting exactly at the (excluded) end of the period: the hypotheses hold,
    the fixed algorithm returns exactly the file crossing midnight, the unfixed one returns nothing *)
 Example nonvacuous :
-  hyps ex_lay ex_files = true /\ wf_queryb ex_query && lookback_okb ex_lay ex_query = true /\
+  hyps ex_lay ex_files = true /\ wf_queryb ex_query = true /\
   ids (find_model ex_lay ex_files ex_query) = Ok [2] /\
   map fid (find_spec ex_files ex_query) = [2] /\
   ids (find_asis ex_lay ex_files ex_query) = Ok [] /\
@@ -188,6 +216,22 @@ Example nonvacuous_ext :
       [42; ex_time 2018 3 5 0; ex_time 2018 3 6 12; 3] ].
 Proof. vm_compute. repeat split; reflexivity. Qed.
 
+(* non-vacuity of extension 2: the period starts 1 s after datetime.min, the look-back of one day is clamped to
+   datetime.min, the file of 0001-01-01 is found (the one starting exactly at the end and the one of 2018 are not);
+   the unclamped code raises; a start exactly one look-back after datetime.min (0001-01-02 00:00) is the first that
+   never needed the clamp *)
+Example nonvacuous_min :
+  hyps ex_min_lay ex_min_files = true /\ wf_queryb ex_min_query = true /\
+  lookback ex_min_lay = us_day /\ dir_start ex_min_lay (qstart ex_min_query) = 0 /\
+  ids (find_model ex_min_lay ex_min_files ex_min_query) = Ok [0] /\
+  map fid (find_spec ex_min_files ex_min_query) = [0] /\
+  ids (find_noclamp ex_min_lay ex_min_files ex_min_query) = Err OverflowErr /\
+  ids (find_noclamp ex_min_lay ex_min_files (mkq us_day (2 * us_day) [] [] [])) = Ok [1] /\
+  ids (find_noclamp ex_min_lay ex_min_files (mkq (us_day - 1) (2 * us_day) [] [] [])) = Err OverflowErr /\
+  ids (find_model ex_min_lay ex_min_files (mkq (us_day - 1) (2 * us_day) [] [] [])) = Ok [1] /\
+  ids (find_model ex_min_lay ex_min_files (mkq 1 (us_day / 2 + 1) [] [] [])) = Ok [0].
+Proof. vm_compute. repeat split; reflexivity. Qed.
+
 Print Assumptions find_sound_complete.
 Print Assumptions find_each_once.
 Print Assumptions semi_open.
@@ -208,3 +252,6 @@ Print Assumptions bundle_freq_bins.
 Print Assumptions single_file_exact.
 Print Assumptions single_file_empty_period.
 Print Assumptions find_asis_refuted.
+Print Assumptions lookback_clamped.
+Print Assumptions lookback_overflow_asis_exact.
+Print Assumptions lookback_overflow_asis_refuted.
